@@ -415,6 +415,13 @@ fn run_history(acts: &[Act], ctx: &mut Ctx) -> Outcome {
                 for q in qs {
                     let ans = run_lex(world.mem(), &q);
                     out.queries += 1;
+                    if instant_pending {
+                        // what the engine itself answers (documents of uncommitted puts are indexed under their WAL sequence number)
+                        if let Some(Ok(raw)) = verif_hooks::tantivy_search_documents(world.mem(), &q.query, None, None, None, 50) {
+                            if raw.iter().any(|(id, _)| *id < obs.frame_count && !ans.ids.contains(id)) { out.branches.push("probe-engine-hit-culled-by-post-filter".into()); }
+                            if raw.iter().any(|(id, _)| *id >= obs.frame_count) { out.branches.push("probe-engine-hit-with-stale-id".into()); }
+                        }
+                    }
                     out.cases.push((format!("probe|{}|{}", q.query, ans.main), !ans.ids.is_empty()));
                     if ctx.verbose { println!("--- act {i}: probe {:?} k={} ns={} -> {}", q.query, q.top_k, q.no_sketch, ans.main); }
                     if !ans.ids.is_empty() && instant_pending { out.branches.push("probe-hit-while-instant-pending".into()); }
@@ -706,7 +713,7 @@ fn gen_history(rng: &mut Rng, thorough: bool) -> Vec<Act> {
     let mut ts = rng.i64(1_600_000_000, 1_700_000_000);
     let mut n = 0u64;
     let mut frames_est = 0u64;
-    let rounds = if thorough { rng.usize(2, 5) } else { rng.usize(1, 3) };
+    let rounds = if thorough { rng.usize(2, 5) } else { rng.usize(1, 2) };
     let instant_pct = *rng.pick(&[0u64, 0, 30, 60]);
     for _ in 0..rounds {
         let k = rng.usize(1, if thorough { 14 } else { 8 });
@@ -724,7 +731,7 @@ fn gen_history(rng: &mut Rng, thorough: bool) -> Vec<Act> {
                 }
                 90..=92 => acts.push(Act::Op(Op::Commit)),
                 93..=94 => acts.push(Act::Op(Op::Reopen)),
-                95 => acts.push(Act::Op(Op::Crash)),
+                95 => acts.push(Act::Op(if rng.bool() { Op::Crash } else { Op::Doctor { vacuum: false, rebuild_time: true, rebuild_lex: rng.bool(), rebuild_vec: false } })),
                 96 => acts.push(Act::Op(if rng.bool() { Op::Vacuum } else if rng.bool() { Op::CommitSkip } else { Op::Commit })),
                 97 => acts.push(Act::Probe { seed: rng.u64() }),
                 _ => { acts.push(Act::Op(Op::Put(gen_text_put(rng, &mut ts, &mut n, dim, instant_pct)))); frames_est += 1; }
@@ -765,7 +772,7 @@ fn corpus() -> Vec<(String, Vec<Act>)> {
         // sketched by the next commit: track ids [1], read back as [0]
         ("skip-indexes-commit-leaves-sketch-gap".into(), vec![
             Act::Op(Op::Put(put(PayloadKind::Ascii, 40, 31, 100))), Act::Op(Op::CommitSkip),
-            Act::Op(Op::Put(put(PayloadKind::Ascii, 60, 32, 101))), chk(16), chk(17)]),
+            Act::Op(Op::Put(put(PayloadKind::Ascii, 60, 32, 101))), chk(16)]),
         ("put-and-update-in-one-batch".into(), vec![
             Act::Op(Op::Put(put_emb(PayloadKind::Ascii, 50, 41, 100, 2))), Act::Op(Op::Put(put_emb(PayloadKind::Ascii, 50, 42, 101, 2))),
             Act::Op(Op::Update(UpdSpec { id: 0, payload: Some(PayloadSpec::new(PayloadKind::Ascii, 30, 43)), ..Default::default() })),
@@ -774,6 +781,15 @@ fn corpus() -> Vec<(String, Vec<Act>)> {
             Act::Op(Op::Put(put(PayloadKind::Ascii, 100, 8, 100))), Act::Op(Op::Commit),
             Act::Op(Op::Put({ let mut p = put(PayloadKind::Ascii, 140, 9, 101); p.instant_index = true; p })), Act::Probe { seed: 21 },
             Act::Op(Op::Put({ let mut p = put(PayloadKind::Ascii, 70, 10, 102); p.instant_index = true; p })), Act::Probe { seed: 22 }, chk(14)]),
+        // doctor resets the WAL (sequence numbers restart at 0): the next instant-index puts are indexed under
+        // sequence numbers that ARE ids of committed frames with other texts
+        ("instant-index-after-doctor-wal-reset".into(), vec![
+            Act::Op(Op::Put(put(PayloadKind::Ascii, 120, 51, 100))), Act::Op(Op::Put(put(PayloadKind::Ascii, 130, 52, 101))),
+            Act::Op(Op::Put(put(PayloadKind::Ascii, 110, 53, 102))), Act::Op(Op::Put(put(PayloadKind::Ascii, 90, 54, 103))), Act::Op(Op::Commit),
+            Act::Op(Op::Doctor { vacuum: false, rebuild_time: true, rebuild_lex: true, rebuild_vec: false }),
+            Act::Op(Op::Put({ let mut p = put(PayloadKind::Ascii, 150, 55, 104); p.instant_index = true; p })), Act::Probe { seed: 23 },
+            Act::Op(Op::Put({ let mut p = put(PayloadKind::Ascii, 140, 56, 105); p.instant_index = true; p })), Act::Probe { seed: 24 },
+            Act::Op(Op::Put({ let mut p = put(PayloadKind::Ascii, 160, 57, 106); p.instant_index = true; p })), Act::Probe { seed: 25 }, chk(19)]),
         ("doctor-rebuilds-vec".into(), vec![
             Act::Op(Op::Put(put_emb(PayloadKind::Ascii, 100, 11, 100, 2))), Act::Op(Op::Put(put_emb(PayloadKind::Ascii, 100, 12, 101, 2))),
             Act::Check { rt: false, rl: false, rv: true, seed: 15 }]),
@@ -823,7 +839,8 @@ fn main() {
          4 timelines) on the live handle, a doctor-rebuilt copy, a read-only handle and a reopened handle — canonical answers must be equal; \
          at probe points (uncommitted instant-index puts): every lexical hit names a frame that contains the query words; \
          case = one query of one check/probe point, non-trivial = the live answer has at least one hit; distinct = query + live answer");
-    sum.expect_branches(&["check", "lex-nonempty", "vec-nonempty", "timeline-nonempty", "probe-with-instant-index-pending", "delete-acked", "put-with-embedding", "chunked-put"]);
+    sum.expect_branches(&["check", "lex-nonempty", "vec-nonempty", "timeline-nonempty", "probe-with-instant-index-pending", "probe-engine-hit-culled-by-post-filter", "delete-acked", "put-with-embedding", "chunked-put",
+        "model-timeidx", "model-timeline", "model-vecenc", "model-vecopen", "model-vecsearch", "model-vecdoctor", "model-sketchrt", "model-cands", "sketch-candidates-nonempty"]);
     let no_rv = args.extra.get("rv").map(|s| s == "0").unwrap_or(false);
     if args.mode == "replay" {
         let case = load_replay(args.replay_file.as_ref().expect("replay file"));
@@ -838,9 +855,9 @@ fn main() {
         sum.model_requests = drv.as_ref().map(|d| d.requests).unwrap_or(0);
         sum.finish(&args);
     }
-    let n_hist: usize = args.extra.get("nhist").and_then(|s| s.parse().ok()).unwrap_or(if args.thorough { 40 } else { 4 });
+    let n_hist: usize = args.extra.get("nhist").and_then(|s| s.parse().ok()).unwrap_or(if args.thorough { 40 } else { 3 });
     let max_fail: usize = args.extra.get("maxfail").and_then(|s| s.parse().ok()).unwrap_or(3);
-    let budget = args.extra.get("shrink").and_then(|s| s.parse().ok()).unwrap_or(if args.thorough { 240 } else { 60 });
+    let budget = args.extra.get("shrink").and_then(|s| s.parse().ok()).unwrap_or(if args.thorough { 90 } else { 40 });
     let only = args.extra.get("only").cloned();
     let verbose = args.extra.get("verbose").map(|s| s == "1").unwrap_or(false);
     for (label, acts) in corpus() {
